@@ -15,6 +15,7 @@ static void *handler(char c, spif_charptr_t buff, void *state)
     if (ctx_state_idx >= ctx_state_cnt || fstate_idx >= fstate_cnt) { g_cap_bad++; snprintf(g_cap_msg, sizeof g_cap_msg, "ctx_state_idx=%d capacity=%d fstate_idx=%d capacity=%d", ctx_state_idx, ctx_state_cnt, fstate_idx, fstate_cnt); }
     if (NGOT < MAXEV) { ev_t *e = &GOT[NGOT++]; e->ctx = c; e->state_in = (long) state;
         if (*buff == SPIFCONF_BEGIN_CHAR) { e->kind = 'B'; e->text[0] = 0; } else if (*buff == SPIFCONF_END_CHAR) { e->kind = 'E'; e->text[0] = 0; } else { e->kind = 'T'; snprintf(e->text, sizeof e->text, "%s", (char *) buff); } }
+    if (!strncmp((char *) buff, "skip ", 5)) file_poke_skip(atoi((char *) buff + 5));      /* a handler may ask for the rest of its block to be skipped: any non-zero value */
     return (void *) (++g_token);
 }
 static void *handler_A(spif_charptr_t b, void *s) { return handler('A', b, s); }
@@ -314,6 +315,53 @@ static void av2_case(uint64_t idx, void *ctx)
     mc_nontrivial();
     mc_outcome(mc_hash(EXP, sizeof(ev_t) * (size_t) (NEXP < 8 ? NEXP : 8)) + (uint64_t) NEXP);
 }
+/* ---- a handler asks for the rest of its block to be skipped (file_poke_skip(n), n any non-zero value): nothing more of the block is delivered, the
+ * block's end is, and the file goes on normally after it */
+static const int SKIPV[] = { 1, 2, 3, 4, 256, -1 };
+#define NSKIPV ((int) (sizeof SKIPV / sizeof SKIPV[0]))
+static void sk_desc(uint64_t idx, void *ctx, char *b, size_t n) { (void) ctx; snprintf(b, n, "file [begin A] [skip %d] [t1] [  t2 two  ] [end] [begin B] [t1] [end]: the handler calls file_poke_skip(%d) on the skip line", SKIPV[idx], SKIPV[idx]); }
+static void sk_case(uint64_t idx, void *ctx)
+{
+    (void) ctx; const char *shape = "handler asks to skip the rest of its block"; mc_set_shape(shape);
+    char data[300]; size_t o = (size_t) snprintf(data, sizeof data, "<verif-1.0>\nbegin A\nskip %d\nt1\n  t2 two  \nend\nbegin B\nt1\nend\n", SKIPV[idx]);
+    snprintf(g_main, sizeof g_main, "%s/skip-%d.cfg", scratch(), (int) getpid());
+    write_file(g_main, data, o);
+    setup();
+    g_env_on = 1; g_ledger_on = 1; g_allow_fork = 0;
+    m_line(L_BEGIN_A); { char t[24]; snprintf(t, sizeof t, "skip %d", SKIPV[idx]); STK[DEPTH].state = m_call(STK[DEPTH].ctx, 'T', t, STK[DEPTH].state); } m_line(L_END);
+    m_line(L_BEGIN_B); m_line(L_T1); m_line(L_END);
+    spif_charptr_t r = spifconf_parse((spif_charptr_t) g_main, NULL, NULL);
+    g_env_on = 0; g_ledger_on = 0; g_allow_fork = 1;
+    if (!r) FAIL("spifconf_parse", "model:return", shape, "returned NULL"); else FREE(r);
+    g_skip_state = 1;
+    compare_and_finish(shape, DEPTH);
+    g_skip_state = 0;
+    mc_nontrivial();
+    mc_outcome((uint64_t) NGOT * 7 + idx);
+}
+/* ---- values are expanded before a line is delivered: a variable set to the empty string is set (the two-word %get gives its value, not the fallback) */
+static void xv_desc(uint64_t idx, void *ctx, char *b, size_t n) { (void) ctx; snprintf(b, n, idx ? "file [begin A] [%%put(e \"\")] [x=%%get(e blue)] [y=%%get(unset blue)] [end]" : "file [begin A] [%%put(e v)] [x=%%get(e blue)] [y=%%get(unset blue)] [end]"); }
+static void xv_case(uint64_t idx, void *ctx)
+{
+    (void) ctx; const char *shape = "line with %put / %get"; mc_set_shape(shape);
+    char data[300]; size_t o = (size_t) snprintf(data, sizeof data, "<verif-1.0>\nbegin A\n%%put(e %s)\nx=%%get(e blue)\ny=%%get(unset blue)\nend\n", idx ? "\"\"" : "v");
+    snprintf(g_main, sizeof g_main, "%s/xv-%d.cfg", scratch(), (int) getpid());
+    write_file(g_main, data, o);
+    setup();
+    g_env_on = 1; g_ledger_on = 1; g_allow_fork = 0;
+    m_line(L_BEGIN_A);
+    STK[DEPTH].state = m_call(STK[DEPTH].ctx, 'T', idx ? "x=" : "x=v", STK[DEPTH].state);
+    STK[DEPTH].state = m_call(STK[DEPTH].ctx, 'T', "y=blue", STK[DEPTH].state);
+    m_line(L_END);
+    spif_charptr_t r = spifconf_parse((spif_charptr_t) g_main, NULL, NULL);
+    g_env_on = 0; g_ledger_on = 0; g_allow_fork = 1;
+    if (!r) FAIL("spifconf_parse", "model:return", shape, "returned NULL"); else FREE(r);
+    g_skip_state = 1;
+    compare_and_finish(shape, DEPTH);
+    g_skip_state = 0;
+    mc_nontrivial();
+    mc_outcome((uint64_t) NGOT * 7 + idx);
+}
 /* ---- the file is found through a search path, in a directory that is not the current one, and includes a file by a relative name
  * (the parser works from the directory of the file it found and returns to where it was); and the name in the magic line follows
  * the program name as it is when a file is opened */
@@ -379,6 +427,8 @@ int main(int argc, char **argv)
     mc_e2_level("search_path_and_name", 1, 6, sp_case, sp_desc, NULL);
     for (g_n = 1; g_n <= 2; g_n++) mc_e2_level("argv_lines", g_n, mc_words_of_len(NAV, g_n), av_case, av_desc, NULL);
     mc_e2_level("argv_lines_in_open_context", 2, (uint64_t) NAV2 * 2, av2_case, av2_desc, NULL);
+    mc_e2_level("skip_to_end", 1, NSKIPV, sk_case, sk_desc, NULL);
+    mc_e2_level("expanded_values", 1, 2, xv_case, xv_desc, NULL);
     for (g_n = 0; g_n <= N; g_n++) if (!mc_e2_level("files", g_n, mc_words_of_len(NKIND, g_n) * 2, f_case, f_desc, NULL)) break;
     return mc_finish();
 }
